@@ -97,6 +97,13 @@ def fixed_dcsim(tier):
         out.append([seed, 1, 1500, 1500, 1, 10000, 0, 300, 0, 0, 100, 4096, 4096, 1, 10000, 3, 1, 600, 0, 0])
     for seed in range(124, 136):
         out.append([seed, 1, 1250, 4000, 1, 14000, 0, 200, 0, 200, 400, 1000, 4096, 1, 14000, 1, 1, 700, 0, 0])
+    # the last chunk is handed over together with the end of stream (write_all_from_fin, mode bit 8): the
+    # packet that carries the final size also carries payload; 10% / 5% loss decides whether it is the one lost
+    for seed in range(200, 224):
+        out.append([seed, 0, 1500, 1500, 40000, 4, 100, 0, 0, 0, 100, 4096, 4096, 65536, 1000,
+                    8 | (2 if seed % 2 else 0), 8 if seed % 3 else 1, 0, 0, 0])
+    for seed in range(224, 236):
+        out.append([seed, 0, 1250, 4000, 25000, 30000, 50, 50, 0, 50, 400, 4096, 4096, 10000, 30000, 10, 10, 0, 0, 0])
     if MTU_MAX >= 32767:
         out.append([9, 0, MTU_MAX, MTU_MAX, 300000, 300000, 50, 50, 20, 50, 2000, 65536, 65536, 65536, 65536, 3, 3, 0, 0, 0])
         out.append([10, 0, 16384, 1500, 100000, 100000, 0, 0, 0, 0, 0, 65536, 65536, 65536, 65536, 3, 3, 0, 0, 0])
@@ -175,7 +182,7 @@ registry.register("C20", {
             "scenario (normal / peer vanishes at a chosen virtual time / peer dropped the path secret), MTU 1250..%d per side, "
             "request and response sizes 0..1 MiB clustered at the initial window 14720, per-direction drop rate 0..30%%, duplicate "
             "0..30%%, delayed (reordered) 0..50%% by up to 0.1..200 ms, read buffer and write chunk sizes 1..1 MiB, shutdown vs drop, "
-            "sequential vs concurrent halves, paused writers, readers that stop half way. Non-trivial = faults configured and bytes "
+            "sequential vs concurrent halves, paused writers, readers that stop half way, and (fixed families) writers that hand over the last chunk together with the end of stream (write_all_from_fin) under 5-10%% loss. Non-trivial = faults configured and bytes "
             "read or an error observed." % MTU_MAX,
     "assumptions": [
         "PARTIAL: the theorems are about the abstract ARQ model (coq/model/DcStream.v); the real send/recv state machines are "
